@@ -211,6 +211,10 @@ def explore(ctx):
                 cases.append({'tuple': [long_tie_probe(n, pa, 0), long_tie_probe(n, pb, 1)],
                               'id_dtype': 'int32', 'fill': ctx.seed})
     ctx.run_cases(run_case, cases, chunk=1, sweep='long-ties')
+    # many probes: more than ten directories (names that sort differently as text and as numbers)
+    cases = [{'tuple': [fam[(j + r) % len(fam)] for j in range(k)], 'id_dtype': dt, 'fill': ctx.seed}
+             for k, r, dt in ((11, 0, 'int32'), (12, 2, 'uint32'))]
+    ctx.run_cases(run_case, cases, chunk=1, sweep='many-probes')
     ctx.bounds = {'family': len(FAMILY), 'k_max': K, 'id_dtypes': ['int32', 'uint32', 'int64'],
                   'long_ties': '2 probes x 40 spikes on <= 3 distinct times'}
     ctx.rule = ('state = one tuple of generated probe directories; transition = Merger(...).merge() '
